@@ -139,7 +139,8 @@ def run(ctx):
         pt = bytes(rng.randrange(256) for _ in range(rng.choice([0, 1, 15, 16, 17, 31, 32, 33, 64])))
         aad = None if (s == "compact" or n % 2) else bytes(rng.randrange(256) for _ in range(rng.choice([1, 7, 32])))
         spec = J.make_spec(K, rng, s, [a], e, crv=c, zip_=z, plaintext=pt, aad=aad,
-                           apu=rng.choice([None, b"Alice", bytes(range(20))]), apv=rng.choice([None, b"Bob", b""]),
+                           apu=rng.choice([None, b"Alice", bytes(range(20)), b"\xfb\xef\xbe\xff\xff\xf8", bytes(rng.getrandbits(8) for _ in range(32))]),
+                           apv=rng.choice([None, b"Bob", b"", b"\xfc", b"\xff\xfb" + bytes(rng.getrandbits(8) for _ in range(20))]),
                            alg_in=rng.choice(["auto", "protected"]),
                            unprotected=rng.choice([None, {"jku": "https://example.com/keys"}]) if s != "compact" else None,
                            p2c=rng.choice(["small", "small", "default"]) if a in J.PBES2_ALGS and not ctx.quick else "small")
